@@ -90,8 +90,8 @@ Qed.
 
 (* anything accepted re-serializes - to Ok, a fortiori without a panic - in either arithmetic mode and either endianness *)
 Theorem text_accepted_reserializes : forall fmt e f t, TextFormat.from_bytes fmt e f = Ok t ->
-  forall m e', (exists f', TextFormat.serialize m fmt e' t = Ok f') /\ forall k, TextFormat.serialize m fmt e' t <> Panic k.
-Proof. intros fmt e f t _ m e'. split; [apply text_serialize_ok | intros k; apply text_serialize_no_panic]. Qed.
+  forall kf m e', (exists f', TextFormat.serialize kf m fmt e' t = Ok f') /\ forall k, TextFormat.serialize kf m fmt e' t <> Panic k.
+Proof. intros fmt e f t _ kf m e'. split; [apply text_serialize_ok | intros k; apply text_serialize_no_panic]. Qed.
 
 (* ---------------------------------------------------------------- arc: every byte string, both modes *)
 Theorem arc_from_bytes_never_panics : forall m f k, arc_from_bytes m f <> Panic k.
@@ -131,5 +131,5 @@ Qed.
 
 (* the no-panic half alone, for arbitrary accepted input (what the property sentence claims) *)
 Theorem text_accepted_reserialize_no_panic : forall fmt e f t, TextFormat.from_bytes fmt e f = Ok t ->
-  forall m e' k, TextFormat.serialize m fmt e' t <> Panic k.
-Proof. intros fmt e f t _ m e' k. apply text_serialize_no_panic. Qed.
+  forall kf m e' k, TextFormat.serialize kf m fmt e' t <> Panic k.
+Proof. intros fmt e f t _ kf m e' k. apply text_serialize_no_panic. Qed.
